@@ -58,10 +58,10 @@ type Amount int64
 // This is performed by adding or subtracting 0.5 depending on the sign, and
 // relying on integer truncation to round the value to the nearest Amount.
 func round(f float64) Amount {
-	if f < 0 {
-		return Amount(f - 0.5)
-	}
-	return Amount(f + 0.5)
+	// math.Round rounds half away from zero exactly; adding 0.5 and
+	// truncating rounds 0.49999999999999994 up to 1 and odd integers above
+	// 2^52 up to the next even one.
+	return Amount(math.Round(f))
 }
 
 // NewAmount creates an Amount from a floating point value representing
